@@ -1,9 +1,737 @@
-/- Helper lemmas for C01 / C07 / C11 (statements of the property theorems are fixed in MysyncProofs/C01.lean, C07.lean, C11.lean). -/
+/-
+Helper lemmas for C01 / C07 / C11 (statements of the property theorems are fixed in MysyncProofs/C01.lean,
+C07.lean, C11.lean).  The stage decomposition of `performSwitchover` is in SwitchoverStages.lean; here are
+the environment lemmas, the generic facts about `run`, and the facts about the switchover procedure.
+-/
 import MysyncModel.App.Switchover
 import MysyncModel.World.Env
 import MysyncProofs.Lemmas.GtidLemmas
+import MysyncProofs.Lemmas.SwitchoverStages
 
 namespace SwitchoverLemmas
 open NS Gtid Select Switchover
+
+/-! ### environment (E3) -/
+
+theorem env_step_frozen {n n' : Env.Node} (hf : Env.Frozen n) (hs : Env.Step n n') :
+    Env.Frozen n' ∧ ∀ k x, n'.Total k x → n.Total k x := by
+  obtain ⟨hro, hio⟩ := hf
+  cases hs with
+  | download r' h _ => rw [hio] at h; cases h
+  | apply e' _ _ hsub =>
+    refine ⟨⟨hro, hio⟩, fun k x h => ?_⟩
+    rcases h with h | h
+    · exact hsub k x h
+    · exact Or.inr h
+  | commit e' h _ => rw [hro] at h; cases h
+  | die => exact ⟨⟨hro, hio⟩, fun _ _ h => h⟩
+  | idle => exact ⟨⟨hro, hio⟩, fun _ _ h => h⟩
+
+theorem env_steps_frozen {n n' : Env.Node} (hf : Env.Frozen n) (hs : Env.Steps n n') :
+    Env.Frozen n' ∧ ∀ k x, n'.Total k x → n.Total k x := by
+  induction hs with
+  | refl => exact ⟨hf, fun _ _ h => h⟩
+  | tail _ hstep ih =>
+    obtain ⟨hf', hsub⟩ := ih
+    obtain ⟨hf'', hsub'⟩ := env_step_frozen hf' hstep
+    exact ⟨hf'', fun k x h => hsub k x (hsub' k x h)⟩
+
+theorem env_step_executed {n n' : Env.Node} (hs : Env.Step n n') :
+    ∀ k x, n.executed.Mem k x → n'.executed.Mem k x := by
+  cases hs with
+  | download => exact fun _ _ h => h
+  | apply e' _ hmono _ => exact hmono
+  | commit e' _ hmono => exact hmono
+  | die => exact fun _ _ h => h
+  | idle => exact fun _ _ h => h
+
+theorem env_steps_executed {n n' : Env.Node} (hs : Env.Steps n n') :
+    ∀ k x, n.executed.Mem k x → n'.executed.Mem k x := by
+  induction hs with
+  | refl => exact fun _ _ h => h
+  | tail _ hstep ih => exact fun k x h => env_step_executed hstep k x (ih k x h)
+
+/-! ### generic facts about `run` -/
+
+def goods (a : List Stage) : List Step := a.flatMap (·.good)
+
+@[simp] theorem goods_nil : goods [] = [] := rfl
+@[simp] theorem goods_cons (s : Stage) (r : List Stage) : goods (s :: r) = s.good ++ goods r := by
+  simp [goods]
+theorem goods_append (a b : List Stage) : goods (a ++ b) = goods a ++ goods b := by
+  simp [goods]
+
+theorem mem_run_cons {s : Step} {stg : Stage} {r : List Stage} :
+    s ∈ run (stg :: r) ↔ (stg.ok = true ∧ (s ∈ stg.good ∨ s ∈ run r)) ∨ (stg.ok = false ∧ s ∈ stg.bad) := by
+  rw [run_cons]
+  cases stg.ok <;> simp
+
+theorem run_append_ok {a b : List Stage} (h : ∀ stg ∈ a, stg.ok = true) : run (a ++ b) = goods a ++ run b := by
+  induction a with
+  | nil => simp
+  | cons s r ih =>
+    have hs : s.ok = true := h s (by simp)
+    simp only [List.cons_append, run_cons, hs, if_true, goods_cons, List.append_assoc]
+    rw [ih (fun stg hm => h stg (by simp [hm]))]
+
+theorem run_ok {a : List Stage} (h : ∀ stg ∈ a, stg.ok = true) : run a = goods a := by
+  have := run_append_ok (b := []) h
+  simpa using this
+
+/-- a step that no stage of `a` can emit is emitted by `run (a ++ b)` only after all of `a` succeeded -/
+theorem mem_run_append {s : Step} {a b : List Stage} (hs : s ∈ run (a ++ b))
+    (ha : ∀ stg ∈ a, s ∉ stg.good ∧ s ∉ stg.bad) : (∀ stg ∈ a, stg.ok = true) ∧ s ∈ run b := by
+  induction a with
+  | nil => exact ⟨by simp, by simpa using hs⟩
+  | cons t r ih =>
+    obtain ⟨hg, hb⟩ := ha t (by simp)
+    rw [List.cons_append, mem_run_cons] at hs
+    rcases hs with ⟨hok, h | h⟩ | ⟨_, h⟩
+    · exact absurd h hg
+    · obtain ⟨h1, h2⟩ := ih h (fun stg hm => ha stg (by simp [hm]))
+      refine ⟨fun stg hm => ?_, h2⟩
+      rcases List.mem_cons.mp hm with rfl | hm
+      · exact hok
+      · exact h1 stg hm
+    · exact absurd h hb
+
+/-- stage-wise condition for "steps satisfying `P` occur at most as the very last step" -/
+def LastOnly (P : Step → Prop) : List Stage → Prop
+  | [] => True
+  | [stg] => (∀ s ∈ stg.bad.dropLast, ¬ P s) ∧ (∀ s ∈ stg.good.dropLast, ¬ P s)
+  | stg :: r => (∀ s ∈ stg.bad.dropLast, ¬ P s) ∧ (∀ s ∈ stg.good, ¬ P s) ∧ LastOnly P r
+
+theorem dropLast_append_of_ne {α : Type _} (a b : List α) (h : b ≠ []) : (a ++ b).dropLast = a ++ b.dropLast :=
+  List.dropLast_append_of_ne_nil h
+
+theorem run_lastOnly (P : Step → Prop) : ∀ (st : List Stage), LastOnly P st → ∀ s ∈ (run st).dropLast, ¬ P s := by
+  intro st
+  induction st with
+  | nil => intro _ s hs; simp at hs
+  | cons t r ih =>
+    intro h s hs
+    cases r with
+    | nil =>
+      obtain ⟨hb, hg⟩ := h
+      simp only [run_cons, run_nil, List.append_nil] at hs
+      by_cases hok : t.ok = true
+      · rw [if_pos hok] at hs; exact hg s hs
+      · rw [if_neg hok] at hs; exact hb s hs
+    | cons u r' =>
+      obtain ⟨hb, hg, hr⟩ := h
+      rw [run_cons] at hs
+      by_cases hok : t.ok = true
+      · rw [if_pos hok] at hs
+        by_cases hne : run (u :: r') = []
+        · rw [hne, List.append_nil] at hs
+          exact hg s (List.dropLast_subset _ hs)
+        · rw [List.dropLast_append_of_ne_nil hne] at hs
+          rcases List.mem_append.mp hs with h1 | h1
+          · exact hg s h1
+          · exact ih hr s h1
+      · rw [if_neg hok] at hs; exact hb s hs
+
+/-- a `P`-step of a list in which `P`-steps occur only last IS the last step -/
+theorem last_of_lastOnly {P : Step → Prop} {l : List Step} (h : ∀ s ∈ l.dropLast, ¬ P s) {x : Step} (hx : x ∈ l) (hp : P x) :
+    l.getLast? = some x := by
+  have hne : l ≠ [] := List.ne_nil_of_mem hx
+  have hl := List.dropLast_concat_getLast hne
+  rw [← hl] at hx
+  rcases List.mem_append.mp hx with h1 | h1
+  · exact absurd hp (h x h1)
+  · rw [List.getLast?_eq_some_getLast hne]
+    simp at h1
+    rw [h1]
+
+theorem prefix_of_lastOnly {P : Step → Prop} {l pre post : List Step} (h : ∀ s ∈ l.dropLast, ¬ P s)
+    (hl : l = pre ++ post) (hpost : post ≠ []) : ∀ s ∈ pre, ¬ P s := by
+  intro s hs
+  apply h s
+  rw [hl, List.dropLast_append_of_ne_nil hpost]
+  exact List.mem_append_left _ hs
+
+/-- the position of a `P`-step is determined when there is only one -/
+theorem split_unique {P : Step → Prop} {G rest pre post : List Step} {x y : Step}
+    (hG : ∀ s ∈ G, ¬ P s) (hrest : ∀ s ∈ rest, ¬ P s) (hx : P x)
+    (h : pre ++ x :: post = G ++ y :: rest) : pre = G ∧ x = y ∧ post = rest := by
+  induction G generalizing pre with
+  | nil =>
+    cases pre with
+    | nil => simp at h; exact ⟨rfl, h.1, h.2⟩
+    | cons p pre' =>
+      simp at h
+      exact absurd hx (hrest x (by rw [← h.2]; simp))
+  | cons g G' ih =>
+    cases pre with
+    | nil =>
+      simp at h
+      exact absurd hx (by rw [h.1]; exact hG g (by simp))
+    | cons p pre' =>
+      simp at h
+      obtain ⟨h1, h2, h3⟩ := ih (fun s hs => hG s (by simp [hs])) h.2
+      exact ⟨by rw [h.1, h1], h2, h3⟩
+
+
+/-! ### reaching the final phase -/
+
+/-- steps of the final phase (after `STOP SLAVE` on the new master) -/
+def fin : Step → Bool
+  | .resetSlaveAll .. | .updateActiveNodes | .setWritable .. | .reenableEvents _ | .setMasterKey .. => true
+  | _ => false
+
+def pFin (i : In) (nm : Pos) : List Stage := [pReset i nm, pWritable i nm, pEvents i nm]
+
+theorem stages_split (cfg : Cfg) (i : In) :
+    stages cfg i = (sPre cfg i ++ pHead i (nmOf cfg i) (mrOf i)) ++ pFin i (nmOf cfg i) := by
+  simp [stages, pStages, pFin]
+
+theorem early_no_fin (cfg : Cfg) (i : In) (nm mr : Pos) (s : Step) (hf : fin s = true) :
+    ∀ stg ∈ sPre cfg i ++ pHead i nm mr, s ∉ stg.good ∧ s ∉ stg.bad := by
+  cases s <;> simp [fin] at hf <;> simp [sPre, sPreA, sOnly, sNode, sPick, pHead]
+
+/-- all guards before the final phase hold -/
+def Reached (cfg : Cfg) (i : In) : Prop := ∀ stg ∈ sPre cfg i ++ pHead i (nmOf cfg i) (mrOf i), stg.ok = true
+
+theorem fin_reach {cfg : Cfg} {i : In} {s : Step} (hf : fin s = true) (hs : s ∈ performSwitchover cfg i) :
+    Reached cfg i ∧ s ∈ run (pFin i (nmOf cfg i)) := by
+  rw [performSwitchover_eq, stages_split] at hs
+  exact mem_run_append hs (early_no_fin cfg i _ _ s hf)
+
+theorem reached_eq {cfg : Cfg} {i : In} (h : Reached cfg i) :
+    performSwitchover cfg i =
+      goods (sPre cfg i) ++ goods (pHead i (nmOf cfg i) (mrOf i)) ++ run (pFin i (nmOf cfg i)) := by
+  rw [performSwitchover_eq, stages_split, run_append_ok h, goods_append]
+
+/-- the guards of `Reached`, by name -/
+structure Guards (cfg : Cfg) (i : In) : Prop where
+  target : i.sw.to = "" ∨ i.sw.to ∈ i.active
+  noDubious : dubiousHAHosts i.cs = []
+  quorum : qOk cfg i = true
+  lock1 : i.lock1 = true
+  posSome : i.positions.isSome = true
+  posLen : (psOf i).length = (frozen i).length
+  node : isNode (findMostRecent (psOf i)) = true
+  pick : (¬ i.sw.to = "" ∨ i.sw.from_ = "") ∨
+    isDNode (mostDesirable cfg.priorityChoiceMaxLag (filterOutHost (psOf i) i.sw.from_)) = true
+  catchUp : i.catchUp = .caught ∨ i.catchUp = .asyncEscape
+  lock2 : i.lock2 = true
+  recovery : needRecovery i (mrOf i) = false ∨ i.setRecoveryOk = true
+
+theorem Reached.guards {cfg : Cfg} {i : In} (h : Reached cfg i) : Guards cfg i := by
+  simp [Reached, sPre, sPreA, sOnly, sNode, sPick, pHead] at h
+  obtain ⟨h1, h2, _, _, _, _, _, h8, h9, ⟨h10, h10'⟩, _, h12, h13, _, _, h16, h17, _, _, _, _, _, h23, _⟩ := h
+  exact ⟨h1, h2, h8, h9, h10, h10', h12, h13, h16, h17, h23⟩
+
+/-- the collected positions and their maximum -/
+theorem Guards.positions {cfg : Cfg} {i : In} (g : Guards cfg i) :
+    ∃ ps mr, i.positions = some ps ∧ psOf i = ps ∧ ps.length = (frozen i).length ∧
+      findMostRecent ps = .node mr ∧ mrOf i = mr := by
+  obtain ⟨ps, hps⟩ := Option.isSome_iff_exists.mp g.posSome
+  have hp : psOf i = ps := by simp [psOf, hps]
+  have hn := g.node
+  have hl := g.posLen
+  rw [hp] at hn hl
+  cases hm : findMostRecent ps with
+  | node mr => exact ⟨ps, mr, hps, hp, hl, hm, by simp [mrOf, hp, hm]⟩
+  | panic => rw [hm] at hn; cases hn
+  | splitBrain => rw [hm] at hn; cases hn
+
+theorem findMostRecent_mem {ps : List Pos} {mr : Pos} (h : findMostRecent ps = .node mr) : mr ∈ ps := by
+  cases ps with
+  | nil => cases h
+  | cons p r =>
+    unfold findMostRecent at h
+    simp only at h
+    split at h
+    · cases h
+    · cases h; exact GtidLemmas.scan_mem p r
+
+theorem mDF_mem (bound : Int) : ∀ (fuel : Nat) (ps : List Pos) (r : Pos),
+    mostDesirableFuel bound fuel ps = .node r → r ∈ ps := by
+  intro fuel
+  induction fuel with
+  | zero => intro ps r h; cases h
+  | succ n ih =>
+    intro ps r h
+    unfold mostDesirableFuel at h
+    cases hmp : mostPriority ps with
+    | none => rw [hmp] at h; cases h
+    | some top =>
+      rw [hmp] at h
+      have htop : top ∈ ps := by
+        cases ps with
+        | nil => cases hmp
+        | cons p t =>
+          simp only [mostPriority, Option.some.injEq] at hmp
+          subst hmp
+          have : ∀ (l : List Pos) (acc : Pos), l.foldl priorityStep acc = acc ∨ l.foldl priorityStep acc ∈ l := by
+            intro l
+            induction l with
+            | nil => intro acc; exact Or.inl rfl
+            | cons q l ihl =>
+              intro acc
+              rw [List.foldl_cons]
+              have hq : priorityStep acc q = acc ∨ priorityStep acc q = q := by
+                unfold priorityStep
+                split
+                · exact Or.inr rfl
+                · split
+                  · exact GtidLemmas.pickBetter_cases acc q
+                  · exact Or.inl rfl
+              rcases ihl (priorityStep acc q) with h1 | h1
+              · rcases hq with h2 | h2
+                · exact Or.inl (by rw [h1, h2])
+                · exact Or.inr (by rw [h1, h2]; simp)
+              · exact Or.inr (List.mem_cons_of_mem _ h1)
+          rcases this t p with h1 | h1
+          · rw [h1]; simp
+          · exact List.mem_cons_of_mem _ h1
+      simp only at h
+      split at h
+      · cases h; exact htop
+      · split at h
+        · cases h; exact htop
+        · exact (List.mem_filter.1 (ih _ r h)).1
+
+/-- who is promoted -/
+theorem Guards.newMaster {cfg : Cfg} {i : In} (g : Guards cfg i) {ps : List Pos} (hps : psOf i = ps) :
+    (i.sw.to ≠ "" ∧ (nmOf cfg i).host = i.sw.to) ∨
+    (i.sw.to = "" ∧ nmOf cfg i ∈ ps ∧ (i.sw.from_ = "" ∨ (nmOf cfg i).host ≠ i.sw.from_)) := by
+  obtain ⟨ps', mr, _, hps', _, hmr, hmrOf⟩ := g.positions
+  rw [hps] at hps'; subst hps'
+  by_cases hto : i.sw.to = ""
+  · right
+    refine ⟨hto, ?_⟩
+    by_cases hfrom : i.sw.from_ = ""
+    · have : nmOf cfg i = mr := by simp [nmOf, hto, hfrom, hmrOf]
+      rw [this]
+      exact ⟨findMostRecent_mem hmr, Or.inl hfrom⟩
+    · have hd : isDNode (mostDesirable cfg.priorityChoiceMaxLag (filterOutHost (psOf i) i.sw.from_)) = true := by
+        rcases g.pick with (h | h) | h
+        · exact absurd hto h
+        · exact absurd h hfrom
+        · exact h
+      rw [hps] at hd
+      cases hmd : mostDesirable cfg.priorityChoiceMaxLag (filterOutHost ps i.sw.from_) with
+      | node nm =>
+        have : nmOf cfg i = nm := by simp [nmOf, hto, hfrom, hps, hmd]
+        rw [this]
+        have hm := mDF_mem _ _ _ _ hmd
+        unfold filterOutHost at hm
+        obtain ⟨h1, h2⟩ := List.mem_filter.1 hm
+        exact ⟨h1, Or.inr (by simpa using h2)⟩
+      | notFound => rw [hmd] at hd; cases hd
+      | outOfFuel => rw [hmd] at hd; cases hd
+  · left
+    refine ⟨hto, ?_⟩
+    simp only [nmOf, bne_iff_ne, ne_eq, hto, not_false_eq_true, if_true]
+    cases hf : (psOf i).find? (fun x => x.host == i.sw.to) with
+    | none => rfl
+    | some p => simpa using List.find?_some hf
+
+
+/-! ### C01 -/
+
+theorem writable_reach {cfg : Cfg} {i : In} {h : String} {ok : Bool}
+    (hs : Step.setWritable h ok ∈ performSwitchover cfg i) :
+    Reached cfg i ∧ i.resetOk = true ∧ h = (nmOf cfg i).host ∧ ok = i.writableOk := by
+  obtain ⟨hr, hm⟩ := fin_reach (by rfl) hs
+  simp [pFin, pReset, pWritable, pEvents, mem_run_cons] at hm
+  obtain ⟨h1, h2⟩ := hm
+  refine ⟨hr, h1, ?_⟩
+  rcases h2 with ⟨h2, h3, h4⟩ | ⟨h2, h3, h4⟩
+  · exact ⟨h3, by rw [h2, h4]⟩
+  · exact ⟨h3, by rw [h2, h4]⟩
+
+theorem promotion_needs (cfg : Cfg) (i : In) (h : String) (ok : Bool)
+    (hs : Step.setWritable h ok ∈ performSwitchover cfg i) :
+    (i.sw.to = "" ∨ i.sw.to ∈ i.active) ∧ dubiousHAHosts i.cs = [] ∧
+    Gen.SwitchHelper.CheckFailoverQuorum (sh cfg) i.active (frozen i).length = none ∧
+    i.lock1 = true ∧ i.lock2 = true ∧
+    (∃ ps mr, i.positions = some ps ∧ ps.length = (frozen i).length ∧ findMostRecent ps = .node mr) ∧
+    (i.catchUp = .caught ∨ i.catchUp = .asyncEscape) := by
+  have g := (writable_reach hs).1.guards
+  obtain ⟨ps, mr, h1, _, h2, h3, _⟩ := g.positions
+  refine ⟨g.target, g.noDubious, ?_, g.lock1, g.lock2, ⟨ps, mr, h1, h2, h3⟩, g.catchUp⟩
+  have := g.quorum
+  unfold qOk at this
+  exact Option.isNone_iff_eq_none.mp this
+
+theorem frozen_spec (i : In) (h : String) (hf : h ∈ frozen i) :
+    h ∈ i.active ∧ (i.cs.get? h).map (·.pingOk) = some true ∧ i.ro h = true ∧ (h = i.oldMaster ∨ i.io h = true) := by
+  unfold frozen at hf
+  obtain ⟨hw, hc⟩ := List.mem_filter.mp hf
+  have hact : h ∈ i.active := by
+    unfold workList at hw
+    split at hw
+    · exact (List.mem_filter.mp hw).1
+    · exact hw
+  simp only [Bool.and_eq_true, beq_iff_eq, Bool.or_eq_true] at hc
+  exact ⟨hact, hc.1.1, hc.1.2, hc.2⟩
+
+theorem quorum_numbers (cfg : Cfg) (i : In)
+    (h : Gen.SwitchHelper.CheckFailoverQuorum (sh cfg) i.active (frozen i).length = none) :
+    (cfg.semiSync = true → Gen.SwitchHelper.GetFailoverQuorum (sh cfg) i.active ≤ (frozen i).length) ∧
+    (cfg.semiSync = false → 1 ≤ (frozen i).length) := by
+  unfold Gen.SwitchHelper.CheckFailoverQuorum at h
+  constructor
+  · intro hs
+    have : (sh cfg).SemiSync = true := hs
+    simp only [this, if_true] at h
+    by_cases hlt : ((frozen i).length : Int) < Gen.SwitchHelper.GetFailoverQuorum (sh cfg) i.active
+    · simp [hlt] at h
+    · exact Int.not_lt.mp hlt
+  · intro hs
+    have : (sh cfg).SemiSync = false := hs
+    simp only [this] at h
+    by_cases hz : (frozen i).length = 0
+    · simp [hz] at h
+    · omega
+
+theorem async_escape_only_if (cfg : Cfg) (sw : Manager.Switch) (delay : Option Int)
+    (h : checkAsyncSwitchAllowed cfg sw delay = true) :
+    cfg.async = true ∧ sw.causeAuto = true ∧ cfg.asyncAllowedLag > 0 ∧ ∃ d, delay = some d ∧ d * 1000000000 < cfg.asyncAllowedLag := by
+  unfold checkAsyncSwitchAllowed at h
+  split at h
+  · rename_i hc
+    simp only [Bool.and_eq_true, decide_eq_true_eq] at hc
+    cases delay with
+    | none => cases h
+    | some d => exact ⟨hc.1.1, hc.1.2, hc.2, d, rfl, by simpa using h⟩
+  · cases h
+
+
+theorem promotion_safe (cfg : Cfg) (i : In) (h : String) (ok : Bool)
+    (hs : Step.setWritable h ok ∈ performSwitchover cfg i)
+    (total : String → GtidSet) (execNew : GtidSet)
+    (hpos : ∀ ps, i.positions = some ps → (∀ p ∈ ps, WF p.gtid ∧ p.gtid = total p.host) ∧ ∀ f ∈ frozen i, ∃ p ∈ ps, p.host = f)
+    (hcaught : i.catchUp = .caught → ∀ ps mr, i.positions = some ps → findMostRecent ps = .node mr → GtidLemmas.GSubset mr.gtid execNew)
+    (hc : i.catchUp = .caught) :
+    ∀ f ∈ frozen i, GtidLemmas.GSubset (total f) execNew := by
+  obtain ⟨_, _, _, _, _, ⟨ps, mr, h1, _, h3⟩, _⟩ := promotion_needs cfg i h ok hs
+  obtain ⟨hwf, hcov⟩ := hpos ps h1
+  have hne : ps ≠ [] := by
+    intro he; rw [he] at h3; cases h3
+  have hspec := GtidLemmas.mostRecent_spec ps hne (fun p hp => (hwf p hp).1)
+  rw [h3] at hspec
+  intro f hf
+  obtain ⟨p, hp, hpf⟩ := hcov f hf
+  have := hspec.2 p hp
+  rw [(hwf p hp).2, hpf] at this
+  exact GtidLemmas.GSubset.trans this (hcaught hc ps mr h1 h3)
+
+/-- every step of `run st` is emitted by one of its stages -/
+theorem mem_run_stage {s : Step} {st : List Stage} (h : s ∈ run st) : ∃ stg ∈ st, s ∈ stg.good ∨ s ∈ stg.bad := by
+  induction st with
+  | nil => simp at h
+  | cons t r ih =>
+    rcases mem_run_cons.mp h with ⟨_, h1 | h1⟩ | ⟨_, h1⟩
+    · exact ⟨t, by simp, Or.inl h1⟩
+    · obtain ⟨stg, hm, hh⟩ := ih h1
+      exact ⟨stg, by simp [hm], hh⟩
+    · exact ⟨t, by simp, Or.inr h1⟩
+
+theorem run_append_fail {a b : List Stage} (h : ∃ stg ∈ a, stg.ok = false) : run (a ++ b) = run a := by
+  rw [run_append]
+  have : (a.all fun x => x.ok) = false := by
+    apply Bool.eq_false_iff.mpr
+    intro hall
+    obtain ⟨stg, hm, hf⟩ := h
+    rw [List.all_eq_true] at hall
+    rw [hall stg hm] at hf
+    cases hf
+  simp [this]
+
+/-- steps that change the topology -/
+def promo : Step → Bool
+  | .setWritable .. | .resetSlaveAll .. | .changeMaster .. | .setMasterKey .. | .stopSlave .. | .setRecovery .. => true
+  | _ => false
+
+theorem sPre_no_promo (cfg : Cfg) (i : In) (s : Step) (hp : promo s = true) :
+    ∀ stg ∈ sPre cfg i, s ∉ stg.good ∧ s ∉ stg.bad := by
+  cases s <;> simp [promo] at hp <;> simp [sPre, sPreA, sOnly, sNode, sPick]
+
+theorem emerge_only_on_splitbrain (cfg : Cfg) (i : In) (h : Step.writeEmerge ∈ performSwitchover cfg i) :
+    ∃ ps, i.positions = some ps ∧ findMostRecent ps = .splitBrain := by
+  rw [performSwitchover_eq] at h
+  simp [stages, sPre, sPreA, sOnly, sNode, sPick, pStages, pHead, pReset, pWritable, pEvents, mem_run_cons] at h
+  obtain ⟨_, _, _, _, _, _, _, _, _, ⟨h10, _⟩, _, _, h12⟩ := h
+  obtain ⟨ps, hps⟩ := Option.isSome_iff_exists.mp h10
+  refine ⟨ps, hps, ?_⟩
+  simpa [psOf, hps] using h12
+
+/-- on split brain nothing is promoted, whatever else happens -/
+theorem splitbrain_no_promo (cfg : Cfg) (i : In) (ps : List Pos)
+    (hpos : i.positions = some ps) (hsb : findMostRecent ps = .splitBrain) :
+    ∀ s ∈ performSwitchover cfg i, promo s = false := by
+  intro s hs
+  have hps : psOf i = ps := by simp [psOf, hpos]
+  have hfail : ∃ stg ∈ sPre cfg i, stg.ok = false := ⟨sNode i, by simp [sPre], by simp [sNode, hps, hsb, isNode]⟩
+  rw [performSwitchover_eq, stages, run_append_fail hfail] at hs
+  obtain ⟨stg, hm, hh⟩ := mem_run_stage hs
+  cases hp : promo s with
+  | false => rfl
+  | true =>
+    obtain ⟨h1, h2⟩ := sPre_no_promo cfg i s hp stg hm
+    rcases hh with hh | hh
+    · exact absurd hh h1
+    · exact absurd hh h2
+
+/-- … and, unless the procedure stopped at "no suitable nodes to switch from", the emergency marker is the last step -/
+theorem splitbrain_emerge_last (cfg : Cfg) (i : In) (ps : List Pos)
+    (hpos : i.positions = some ps) (hsb : findMostRecent ps = .splitBrain)
+    (hreach : Step.positions true ∈ performSwitchover cfg i)
+    (hne : ¬ (ps.length = 1 ∧ ps.head?.map (·.host) = some i.sw.from_)) :
+    (performSwitchover cfg i).getLast? = some .writeEmerge := by
+  have hps : psOf i = ps := by simp [psOf, hpos]
+  have hst : stages cfg i = sPreA cfg i ++ ([sOnly i, sNode i, sPick cfg i] ++ pStages i (nmOf cfg i) (mrOf i)) := by
+    simp [stages, sPre]
+  rw [performSwitchover_eq] at hreach ⊢
+  have hA : ∀ stg ∈ sPreA cfg i, stg.ok = true := by
+    simp [stages, sPre, sPreA, sOnly, sNode, sPick, pStages, pHead, pReset, pWritable, pEvents, mem_run_cons] at hreach
+    simpa [sPreA] using hreach
+  have h11 : (sOnly i).ok = true := by
+    simp only [sOnly, hps, Bool.not_eq_true', Bool.and_eq_false_iff]
+    by_cases hl : ps.length = 1
+    · right
+      have := fun hh => hne ⟨hl, hh⟩
+      simpa using this
+    · left; simpa using hl
+  have h12 : (sNode i).ok = false := by simp [sNode, hps, hsb, isNode]
+  rw [hst, run_append_ok hA, List.cons_append, run_cons, h11, if_pos rfl, List.cons_append, run_cons, h12]
+  simp [sOnly, sNode, hps, hsb, mrBad]
+
+
+/-- corrected `C01.splitbrain_aborts`: for WELL-FORMED positions (the statement without `hwf` is false: an
+ill-formed set is not contained in itself, so a single collected position equal to `from` is reported as
+split brain by `findMostRecent` but stops the procedure at "no suitable nodes to switch from") -/
+theorem splitbrain_aborts (cfg : Cfg) (i : In) (ps : List Pos)
+    (hpos : i.positions = some ps) (hsb : findMostRecent ps = .splitBrain)
+    (hreach : Step.positions true ∈ performSwitchover cfg i)
+    (hwf : ∀ p ∈ ps, WF p.gtid) :
+    (performSwitchover cfg i).getLast? = some .writeEmerge ∧
+    ∀ s ∈ performSwitchover cfg i, (∀ h ok, s ≠ .setWritable h ok) ∧ (∀ h ok, s ≠ .resetSlaveAll h ok) ∧
+      (∀ h t ok, s ≠ .changeMaster h t ok) := by
+  constructor
+  · apply splitbrain_emerge_last cfg i ps hpos hsb hreach
+    rintro ⟨hl, _⟩
+    match ps, hl with
+    | [p], _ =>
+      have hc : contain p.gtid p.gtid = true :=
+        (GtidLemmas.contain_iff _ _ (hwf p (by simp)) (hwf p (by simp))).mpr (GtidLemmas.GSubset.refl _)
+      simp [findMostRecent, scanMostRecent, detectSplitbrain, hc] at hsb
+  · intro s hs
+    have := splitbrain_no_promo cfg i ps hpos hsb s hs
+    refine ⟨?_, ?_, ?_⟩ <;> intros <;> intro he <;> rw [he] at this <;> cases this
+
+/-! #### order -/
+
+def segA (cfg : Cfg) (i : In) : List Step :=
+  [.stopOptimization true] ++ (if i.turbo then [.turboPhase true] else []) ++
+    ((workList i).map fun h => Step.freezeRO h (roOk i h)) ++
+    ((workList i).filter (· != i.oldMaster)).map (fun h => Step.stopIO h ((pingOk i.cs h == some true) && i.io h)) ++
+    [.quorumCheck (frozen i).length (qOk cfg i)]
+
+def segB (_i : In) (nm mr : Pos) : List Step :=
+  [.positions true, .chosen nm.host mr.host] ++ (if nm.host != mr.host then [.setOnline mr.host true] else []) ++
+    (if nm.host != mr.host then [.changeMaster nm.host mr.host true] else [])
+
+def segD (i : In) (nm mr : Pos) : List Step :=
+  [.restate true, .setOnline nm.host true] ++ ((targets i nm).map fun h => Step.changeMaster h nm.host (i.repoint h)) ++
+    (if needRecovery i mr then [.setRecovery i.oldMaster true] else []) ++ [.stopSlave nm.host true]
+
+theorem goods_early (cfg : Cfg) (i : In) (nm mr : Pos) :
+    goods (sPre cfg i) ++ goods (pHead i nm mr) =
+      segA cfg i ++ Step.lockCheck 1 true :: segB i nm mr ++ Step.catchUp i.catchUp :: [] ++ Step.lockCheck 2 true :: segD i nm mr := by
+  simp [sPre, sPreA, sOnly, sNode, sPick, pHead, segA, segB, segD]
+
+theorem not_mem_goods {s : Step} {a : List Stage} (h : ∀ stg ∈ a, s ∉ stg.good) : s ∉ goods a := by
+  induction a with
+  | nil => simp
+  | cons t r ih =>
+    rw [goods_cons]
+    intro hm
+    rcases List.mem_append.mp hm with h1 | h1
+    · exact h t (by simp) h1
+    · exact ih (fun stg hs => h stg (by simp [hs])) h1
+
+theorem not_fin_early (cfg : Cfg) (i : In) (nm mr : Pos) (s : Step) (hf : fin s = true) :
+    s ∉ goods (sPre cfg i) ++ goods (pHead i nm mr) := by
+  rw [← goods_append]
+  exact not_mem_goods fun stg hm => (early_no_fin cfg i nm mr s hf stg hm).1
+
+theorem promotion_order (cfg : Cfg) (i : In) (pre post : List Step) (h : String) (ok : Bool)
+    (hsplit : performSwitchover cfg i = pre ++ Step.setWritable h ok :: post) :
+    ∃ a b c d, pre = a ++ Step.lockCheck 1 true :: b ++ Step.catchUp i.catchUp :: c ++ Step.lockCheck 2 true :: d ∧
+      (∀ s ∈ b ++ c ++ d, (∀ x o, s ≠ .freezeRO x o) ∧ (∀ x o, s ≠ .stopIO x o)) ∧
+      Step.resetSlaveAll h true ∈ d := by
+  have hs : Step.setWritable h ok ∈ performSwitchover cfg i := by rw [hsplit]; simp
+  obtain ⟨hr, hreset, hh, _⟩ := writable_reach hs
+  let P : Step → Prop := fun s => ∃ x o, s = .setWritable x o
+  have hnP : ∀ s, P s → fin s = true := by rintro s ⟨x, o, rfl⟩; rfl
+  have key : ∃ y rest, P y ∧ (∀ s ∈ rest, ¬ P s) ∧ run (pFin i (nmOf cfg i)) =
+      [.resetSlaveAll (nmOf cfg i).host true, .updateActiveNodes] ++ y :: rest := by
+    simp only [pFin, pReset, pWritable, pEvents, run_cons, run_nil, hreset, if_true]
+    cases i.writableOk
+    · exact ⟨.setWritable (nmOf cfg i).host false, [], ⟨_, _, rfl⟩, by simp, by simp⟩
+    · cases i.eventsOk
+      · exact ⟨.setWritable (nmOf cfg i).host true, [.reenableEvents false], ⟨_, _, rfl⟩, by simp [P], by simp⟩
+      · exact ⟨.setWritable (nmOf cfg i).host true, [.reenableEvents true, .setMasterKey (nmOf cfg i).host i.masterKeyOk],
+          ⟨_, _, rfl⟩, by simp [P], by simp⟩
+  obtain ⟨y, rest, hy, hrest, hfin⟩ := key
+  have heq := reached_eq hr
+  rw [hfin, hsplit, ← List.append_assoc] at heq
+  have hG : ∀ s ∈ goods (sPre cfg i) ++ goods (pHead i (nmOf cfg i) (mrOf i)) ++
+      [Step.resetSlaveAll (nmOf cfg i).host true, Step.updateActiveNodes], ¬ P s := by
+    intro s hm hp
+    rcases List.mem_append.mp hm with h1 | h1
+    · exact not_fin_early cfg i _ _ s (hnP s hp) h1
+    · obtain ⟨x, o, rfl⟩ := hp
+      simp at h1
+  obtain ⟨hpre, _, _⟩ := split_unique hG hrest ⟨h, ok, rfl⟩ heq
+  rw [goods_early] at hpre
+  refine ⟨segA cfg i, segB i (nmOf cfg i) (mrOf i), [],
+    segD i (nmOf cfg i) (mrOf i) ++ [Step.resetSlaveAll (nmOf cfg i).host true, Step.updateActiveNodes], ?_, ?_, ?_⟩
+  · rw [hpre]; simp
+  · intro s hm
+    simp only [List.append_nil, segB, segD] at hm
+    refine ⟨?_, ?_⟩ <;> intro x o he <;> subst he <;> simp at hm
+  · rw [hh]; simp
+
+theorem promoted_is_target_or_frozen (cfg : Cfg) (i : In) (h : String) (ok : Bool)
+    (hs : Step.setWritable h ok ∈ performSwitchover cfg i) :
+    (i.sw.to ≠ "" ∧ h = i.sw.to) ∨ (i.sw.to = "" ∧ ∃ ps p, i.positions = some ps ∧ p ∈ ps ∧ p.host = h ∧ (i.sw.from_ = "" ∨ h ≠ i.sw.from_)) := by
+  obtain ⟨hr, _, hh, _⟩ := writable_reach hs
+  have g := hr.guards
+  obtain ⟨ps, _, hpos, hps, _, _, _⟩ := g.positions
+  rcases g.newMaster hps with ⟨h1, h2⟩ | ⟨h1, h2, h3⟩
+  · exact Or.inl ⟨h1, by rw [hh, h2]⟩
+  · exact Or.inr ⟨h1, ps, nmOf cfg i, hpos, h2, hh.symm, by rw [hh]; exact h3⟩
+
+
+/-! ### C07 -/
+
+def IsMasterKey (s : Step) : Prop := ∃ h ok, s = .setMasterKey h ok
+def IsLostLock (s : Step) : Prop := ∃ n, s = .lockCheck n false
+
+theorem dropLast_rejectBad (ok : Bool) : ∀ s ∈ (rejectBad ok).dropLast, s = .rejectInside := by
+  cases ok <;> simp [rejectBad]
+
+theorem dropLast_mrBad (x : MostRecent) : (mrBad x).dropLast = [] := by
+  cases x <;> simp [mrBad]
+
+theorem lastOnly_masterKey (cfg : Cfg) (i : In) : LastOnly IsMasterKey (stages cfg i) := by
+  have hr := dropLast_rejectBad i.rejectOk
+  simp [LastOnly, stages, sPre, sPreA, sOnly, sNode, sPick, pStages, pHead, pReset, pWritable, pEvents, IsMasterKey,
+    dropLast_mrBad]
+  constructor
+  · intro s hs x; rw [hr s hs]; simp
+  · rintro s (⟨a, _, rfl⟩ | rfl) x <;> simp
+
+theorem lastOnly_lostLock (cfg : Cfg) (i : In) : LastOnly IsLostLock (stages cfg i) := by
+  have hr := dropLast_rejectBad i.rejectOk
+  simp [LastOnly, stages, sPre, sPreA, sOnly, sNode, sPick, pStages, pHead, pReset, pWritable, pEvents, IsLostLock,
+    dropLast_mrBad]
+  constructor
+  · intro s hs x; rw [hr s hs]; simp
+  · rintro s (⟨a, _, rfl⟩ | rfl) x <;> simp
+
+theorem master_key_last (cfg : Cfg) (i : In) (h : String) (ok : Bool)
+    (hs : Step.setMasterKey h ok ∈ performSwitchover cfg i) :
+    (performSwitchover cfg i).getLast? = some (.setMasterKey h ok) := by
+  rw [performSwitchover_eq] at hs ⊢
+  exact last_of_lastOnly (run_lastOnly _ _ (lastOnly_masterKey cfg i)) hs ⟨h, ok, rfl⟩
+
+theorem crash_keeps_old_master_key (cfg : Cfg) (i : In) (pre post : List Step) (hpost : post ≠ [])
+    (hsplit : performSwitchover cfg i = pre ++ post) : ∀ h ok, Step.setMasterKey h ok ∉ pre := by
+  rw [performSwitchover_eq] at hsplit
+  intro h ok hm
+  exact prefix_of_lastOnly (run_lastOnly _ _ (lastOnly_masterKey cfg i)) hsplit hpost _ hm ⟨h, ok, rfl⟩
+
+theorem lost_lock_stops (cfg : Cfg) (i : In) (n : Nat) (hs : Step.lockCheck n false ∈ performSwitchover cfg i) :
+    (performSwitchover cfg i).getLast? = some (.lockCheck n false) := by
+  rw [performSwitchover_eq] at hs ⊢
+  exact last_of_lastOnly (run_lastOnly _ _ (lastOnly_lostLock cfg i)) hs ⟨n, rfl⟩
+
+theorem master_key_after_writable (cfg : Cfg) (i : In) (h : String) (ok : Bool)
+    (hs : Step.setMasterKey h ok ∈ performSwitchover cfg i) :
+    Step.setWritable h true ∈ performSwitchover cfg i ∧ Step.resetSlaveAll h true ∈ performSwitchover cfg i := by
+  obtain ⟨hr, hm⟩ := fin_reach (by rfl) hs
+  simp [pFin, pReset, pWritable, pEvents, mem_run_cons] at hm
+  obtain ⟨h1, h2, h3, h4, _⟩ := hm
+  rw [reached_eq hr]
+  simp [pFin, pReset, pWritable, pEvents, run_cons, h1, h2, h3, h4]
+
+theorem at_most_one_promotion (cfg : Cfg) (i : In) (h1 h2 : String) (o1 o2 : Bool)
+    (a : Step.setWritable h1 o1 ∈ performSwitchover cfg i) (b : Step.setWritable h2 o2 ∈ performSwitchover cfg i) :
+    h1 = h2 ∧ o1 = o2 := by
+  obtain ⟨_, _, ha, ha'⟩ := writable_reach a
+  obtain ⟨_, _, hb, hb'⟩ := writable_reach b
+  exact ⟨by rw [ha, hb], by rw [ha', hb']⟩
+
+
+/-! ### C11 -/
+
+theorem needRecovery_of_unconfirmed (i : In) (mr : Pos)
+    (hu : i.oldStatus = .err ∨ i.oldStatus = .notReplica ∨
+      ∃ st ex, i.oldStatus = .replica st ex ∧ (st = .error ∨ isSlaveAhead (parseD ex) mr.gtid = true)) :
+    needRecovery i mr = true := by
+  unfold needRecovery
+  rcases hu with h | h | ⟨st, ex, h, h'⟩
+  · rw [h]
+  · rw [h]
+  · rw [h]
+    simp only [isSlavePermanentlyLost]
+    rcases h' with h' | h'
+    · subst h'; rfl
+    · rw [h']; simp
+
+theorem marked_when_unconfirmed (cfg : Cfg) (i : In) (ps : List Pos) (mr : Pos)
+    (pre post : List Step) (h : String) (ok : Bool)
+    (hpos : i.positions = some ps) (hmr : findMostRecent ps = .node mr)
+    (hsplit : performSwitchover cfg i = pre ++ Step.resetSlaveAll h ok :: post)
+    (hu : i.oldStatus = .err ∨ i.oldStatus = .notReplica ∨
+      ∃ st ex, i.oldStatus = .replica st ex ∧ (st = .error ∨ isSlaveAhead (parseD ex) mr.gtid = true)) :
+    Step.setRecovery i.oldMaster true ∈ pre := by
+  have hs : Step.resetSlaveAll h ok ∈ performSwitchover cfg i := by rw [hsplit]; simp
+  obtain ⟨hr, _⟩ := fin_reach (by rfl) hs
+  have hmrOf : mrOf i = mr := by simp [mrOf, psOf, hpos, hmr]
+  have hnr : needRecovery i (mrOf i) = true := by rw [hmrOf]; exact needRecovery_of_unconfirmed i mr hu
+  let P : Step → Prop := fun s => ∃ x o, s = .resetSlaveAll x o
+  have key : ∃ y rest, P y ∧ (∀ s ∈ rest, ¬ P s) ∧ run (pFin i (nmOf cfg i)) = y :: rest := by
+    simp only [pFin, pReset, pWritable, pEvents, run_cons, run_nil]
+    cases i.resetOk
+    · exact ⟨.resetSlaveAll (nmOf cfg i).host false, [], ⟨_, _, rfl⟩, by simp, by simp⟩
+    · refine ⟨.resetSlaveAll (nmOf cfg i).host true, _, ⟨_, _, rfl⟩, ?_, by simp; rfl⟩
+      cases i.writableOk <;> cases i.eventsOk <;> simp [P]
+  obtain ⟨y, rest, hy, hrest, hfin⟩ := key
+  have heq := reached_eq hr
+  rw [hfin, hsplit] at heq
+  have hG : ∀ s ∈ goods (sPre cfg i) ++ goods (pHead i (nmOf cfg i) (mrOf i)), ¬ P s := by
+    rintro s hm ⟨x, o, rfl⟩
+    exact not_fin_early cfg i _ _ _ (by rfl) hm
+  obtain ⟨hpre, _, _⟩ := split_unique hG hrest ⟨h, ok, rfl⟩ heq
+  rw [hpre]
+  apply List.mem_append_right
+  simp [pHead, hnr]
+
+theorem workList_subset (i : In) : ∀ h ∈ workList i, h ∈ i.active := by
+  intro h hw
+  unfold workList at hw
+  split at hw
+  · exact (List.mem_filter.mp hw).1
+  · exact hw
+
+theorem promoted_is_listed (cfg : Cfg) (i : In) (h : String) (ok : Bool)
+    (hs : Step.setWritable h ok ∈ performSwitchover cfg i)
+    (hpos : ∀ ps, i.positions = some ps → ∀ p ∈ ps, p.host ∈ frozen i) :
+    h ∈ i.active := by
+  have g := (writable_reach hs).1.guards
+  rcases promoted_is_target_or_frozen cfg i h ok hs with ⟨h1, h2⟩ | ⟨_, ps, p, h2, h3, h4, _⟩
+  · rcases g.target with h3 | h3
+    · exact absurd h3 h1
+    · rw [h2]; exact h3
+  · rw [← h4]
+    exact (frozen_spec i _ (hpos ps h2 p h3)).1
 
 end SwitchoverLemmas
